@@ -337,7 +337,8 @@ def r4_delimiters(ctx):
                 isx = decision_on(p, lambda t: call_is(t, "starts_with"))
                 if kind == "Decl":
                     wrap = [s for s in sym.subterms(r) if call_is(s, "BytesStart::wrap")]
-                    ws = any(c for c in calls(p) if name_is(c[2], "is_whitespace")) or any(e[0] == "switch" and e[2][0] == "bin" and e[2][1] == "Eq" and e[2][3] == ("c", "usize", 3) and e[3] != 0 for e in p)
+                    ws = any(c for c in calls(p) if name_is(c[2], "is_whitespace")) or any(e[0] == "switch" and e[2][0] == "bin" and e[2][1] == "Eq" and e[2][3] == ("c", "usize", 3) and e[3] != 0 for e in p) \
+                        or any(e[0] == "switch" and e[2][0] == "discr" and call_is(e[2][1], "get") and strip_wrappers(e[2][1][3][1]) == ("c", "usize", 3) and e[3] == 0 for e in p)  # `content.get(3)` is None: nothing follows `xml`
                     ctx.ob("R4", "emit_question_mark:Decl", bool(xml) and isx not in (0, None) and bool(wrap) and wrap[0][3][1] == ("c", "usize", 3) and ws, "Decl iff content starts with `xml` followed by end or XML whitespace; name length 3", config=cfg)
                 else:
                     wrap = [s for s in sym.subterms(r) if call_is(s, "BytesPI::wrap")]
